@@ -161,6 +161,18 @@ int vf_main(void) {
 #elif POST == 4
     { m_mod_t *ref = m_mem_ref(B); r = m_mod_deregister(&ref); VF_CHECK(r == 0, "deregister B"); } expB = 0;
     r = m_ctx_dispatch();
+#elif POST == 6
+    /* the loop ends on its own: every RUNNING module pauses (itself) before the mailboxes are read; what is pending for
+     * modules that are PAUSED when the loop ends is discarded - it must not turn up in the next run */
+    r = m_mod_pause(A); VF_CHECK(r == 0, "pause A");
+    r = m_mod_pause(C); VF_CHECK(r == 0, "pause C");
+    if (!PAUSEB) { r = m_mod_pause(B); VF_CHECK(r == 0, "pause B"); }
+    r = m_ctx_dispatch(); VF_CHECK(r == 0, "no module RUNNING: the loop stops");
+    expA = expB = expC = 0;
+    r = m_mod_resume(A); VF_CHECK(r == 0, "resume A");
+    r = m_mod_resume(B); VF_CHECK(r == 0, "resume B");
+    r = m_mod_resume(C); VF_CHECK(r == 0, "resume C");
+    for (int d = 0; d < NSEND + 2; d++) r = m_ctx_dispatch();
 #else
 #if SEND == 1 || SEND == 2
     if (SUBB) { r = m_mod_ps_unsubscribe(B, SEND == 1 ? lit : rxB); VF_CHECK(r == 0, "B unsubscribes after the send"); }
